@@ -47,3 +47,12 @@ CLAIMED['C19'] = (
     'Trusts pandas boolean filtering / numpy array_split / linspace as executed, z3. Shapes bounded.',
     'DESIGN.md §3 C19')
 NOT_APPLICABLE.pop('C19', None)
+CLAIMED['C01'] = (
+    'symbolic execution of Trajectory.positions/displacements/cumulative_displacements/distances_from_base_position with real-valued (z3 Real+ToInt) and binary64 (z3 FloatingPoint) coordinates',
+    'REAL mode: all coordinates in [-2,3] and all integer shifts in [-2,2] for every (T,A) in the bound: wrap range, integrality, minimum-image range, '
+    'frame reconstruction and shift invariance are z3-unsat obligations (chained lemmas with recorded cuts); length = Cartesian norm is a polynomial identity per pool lattice. '
+    'FP mode: wrap range and idempotence of .positions for every finite double (QF_FP).',
+    'Floats read as reals in REAL mode (rounding of sums outside the claim); pymatgen metric_tensor taken as M M^T exactly; half-cell ties excluded for shift invariance; '
+    'np.mod float64 semantics modelled after numpy npy_divmod; z3.',
+    'DESIGN.md §3 C01')
+NOT_APPLICABLE.pop('C01', None)
